@@ -441,6 +441,7 @@ def log_signature(log):
     open_ops = set()
     interleaved = False
     mo = {}
+    funcs = set()
     with open(log) as f:
         for line in f:
             if line.startswith("#"):
@@ -450,6 +451,8 @@ def log_signature(log):
                 continue
             n += 1
             tid, kind = p[0], p[3]
+            if kind != "note":
+                funcs.add(p[2])
             cell = p[4] if len(p) > 4 else ""
             if kind == "note":
                 if len(p) > 4 and p[4] == "call":
@@ -474,7 +477,31 @@ def log_signature(log):
             last = tid
             h.update(("%s %s %s\n" % (tid, kind, cell)).encode())
     return {"sig": h.hexdigest()[:16], "events": n, "switches": switches, "casfail": casfail,
-            "interleaved": interleaved, "hist": hist, "mo": {k: sorted(v) for k, v in mo.items()}}
+            "interleaved": interleaved, "hist": hist, "mo": {k: sorted(v) for k, v in mo.items()},
+            "funcs": sorted(funcs)}
+
+
+def anchored_functions(pid):
+    """function definitions in the files property <pid> is anchored in (properties.jsonl),
+    taken from /repo's working tree: {name: file}.  Used for an informational coverage figure
+    (which of them ever appear as the function of a logged event)."""
+    out = {}
+    files = []
+    for line in open(os.path.join(VERIF, "properties.jsonl")):
+        d = json.loads(line)
+        if d["id"] == pid:
+            files = d.get("anchors", {}).get("files", [])
+    for rel in files:
+        path = os.path.join(REPO, rel)
+        if not os.path.isfile(path):
+            continue
+        txt = re.sub(r"/\*.*?\*/", "", open(path, errors="replace").read(), flags=re.S)
+        txt = re.sub(r"//[^\n]*", "", txt)
+        for m in re.finditer(r"^[A-Za-z_][\w \t\*]*?\b([A-Za-z_]\w*)\s*\([^;{}]*\)\s*\{", txt, flags=re.M):
+            name = m.group(1)
+            if name not in ("if", "while", "for", "switch", "return", "sizeof"):
+                out.setdefault(name, rel)
+    return out
 
 
 # ----------------------------------------------------------------------------- known findings / verdict / evidence
